@@ -136,10 +136,15 @@ def listing(root: Path):
     return sorted(out, key=lambda x: x[0])
 
 
+def pstr(p):
+    """path components as strings (the members of a lazy stack live in directories named 0, 1, …, which parse as ints)"""
+    return [str(x) for x in (p if isinstance(p, list) else [p])]
+
+
 def model_listing(l):
     out = []
     for path, f in l:
-        path = list(path) if isinstance(path, list) else [path]
+        path = pstr(path)
         if f[0] == "bytes":
             out.append([path, ["bytes", f[1]]])
         elif f[1] == "NonTensorData":
@@ -170,8 +175,10 @@ def task_targets(ex, root):
         elif fn.__name__ == "_save_metadata":
             out.append(list((args[1] / "meta.json").relative_to(root).parts))
         elif fn.__name__ == "save_metadata" and fn.__defaults__:
-            # tensorclass.py:_memmap_ (NonTensorData): closure with the directory as a default argument
-            out.append(list((fn.__defaults__[2] / "meta.json").relative_to(root).parts))
+            # closures with the directory as a default argument: tensorclass.py:_memmap_ (cls, _non_tensordict, prefix)
+            # and _lazy.py:LazyStackedTensorDict._memmap_ (prefix, self)
+            pre = [x for x in fn.__defaults__ if isinstance(x, Path)][0]
+            out.append(list((pre / "meta.json").relative_to(root).parts))
         else:
             out.append(["?" + fn.__name__])
     return out
@@ -247,7 +254,7 @@ def run_model_streams(run, drv):
                 model = ["ok", model_listing(m[1]), sort_tree(model_tree(m[2]))]
                 run.corr(f"save+load({kind})", {"tree": tsx, "api": api, "order": o, "num_threads": nt}, impl, model)
                 if targets is not None:
-                    run.corr("writer_tasks(submission order)", {"tree": tsx}, targets, [list(p) if isinstance(p, list) else [p] for p in m[0]])
+                    run.corr("writer_tasks(submission order)", {"tree": tsx}, targets, [pstr(p) for p in m[0]])
                 # oracle: loaded == original (keys, nesting, kinds, batch size, dtypes, shapes, values, payloads)
                 if impl[0] == "err":
                     run.oracle_fail("load_equals_saved", {"tree": tsx, "api": api, "order": o, "num_threads": nt}, f"raised {impl[1]}", f"save:{kind}:raise")
@@ -334,8 +341,15 @@ def run_model_streams(run, drv):
             shutil.rmtree(d, ignore_errors=True)
             # ---- saving into a directory that already holds an earlier save of another structure (stale files stay, must not be read)
             if it % 2 == 0:
-                spec1 = gen_tree(rng, b)
-                td1 = build(spec1, b, device, base=5)
+                # the former save may have a longer batch: its lazy stacks then have more members than the new ones
+                b1 = ([b[0] + rng.choice([0, 1, 2])] + b[1:]) if b else b
+                spec1 = gen_tree(rng, b1)
+                if it % 4 == 0 and b:
+                    # same key for a lazy stack in both saves (stale member directories under the same name)
+                    lzkeys = [k for k, v in spec if v[0] == "lz"]
+                    if lzkeys:
+                        spec1 = [(lzkeys[0], ("lz", [[("x", ("l", torch.float32, b1[1:]))]] * b1[0]))] + [kv for kv in spec1 if kv[0] != lzkeys[0]]
+                td1 = build(spec1, b1, device, base=5)
                 d = root / f"re{it}"
                 run.case(("resave", it))
                 try:
@@ -348,7 +362,7 @@ def run_model_streams(run, drv):
                 except Exception as e:  # noqa: BLE001
                     impl = ["err", f"{type(e).__name__}: {str(e)[:150]}"]
                 mr = parse_sx(drv.ask(f"(c10.resave {td_sx(td1)} {tsx})"))
-                model = ["ok", sorted(list(p) if isinstance(p, list) else [p] for p in mr[0]), sort_tree(model_tree(mr[1]))]
+                model = ["ok", sorted(pstr(p) for p in mr[0]), sort_tree(model_tree(mr[1]))]
                 run.corr("resave(existing directory)", {"first": td_sx(td1)[:400], "second": tsx[:400]}, impl, model)
                 if impl[0] == "ok" and impl[2] == ref:
                     run.oracle_ok("load_equals_saved(existing dir)")
@@ -388,7 +402,31 @@ def replay_saves(run, drv, cases, stream="save+load(replay)"):
     n = 0
     try:
         for ci, c in enumerate(cases):
-            if not (isinstance(c, dict) and isinstance(c.get("tree"), str) and c["tree"].startswith("(n ")):
+            if isinstance(c, dict) and isinstance(c.get("first"), str) and isinstance(c.get("second"), str):
+                # a save over a former save
+                n += 1
+                d = root / f"rr{ci}"
+                run.case(("resave-replay", ci))
+                t1, t2 = td_from_tree(parse_sx(c["first"])), td_from_tree(parse_sx(c["second"]))
+                ref = sort_tree(tree_of(t2))
+                try:
+                    with time_limit(180):
+                        t1.memmap(d)
+                        t2.memmap(d)
+                        impl = ["ok", sorted(x[0] for x in listing(d)), sort_tree(tree_of(TensorDict.load_memmap(d)))]
+                except TimeoutError as e:
+                    raise Infra(f"memmap timed out: {e}")
+                except Exception as e:  # noqa: BLE001
+                    impl = ["err", f"{type(e).__name__}: {str(e)[:150]}"]
+                mr = parse_sx(drv.ask(f"(c10.resave {c['first']} {c['second']})"))
+                run.corr("resave(" + ("corpus" if "corpus" in stream else "replay") + ")", c, impl, ["ok", sorted(pstr(p) for p in mr[0]), sort_tree(model_tree(mr[1]))])
+                if impl[0] == "ok" and impl[2] == ref:
+                    run.oracle_ok("load_equals_saved(existing dir)")
+                else:
+                    run.oracle_fail("load_equals_saved(existing dir)", c, "after saving over an earlier save, the loaded tensordict differs from the one saved" if impl[0] == "ok" else impl[1], "resave")
+                shutil.rmtree(d, ignore_errors=True)
+                continue
+            if not (isinstance(c, dict) and isinstance(c.get("tree"), str) and c["tree"].startswith(("(n ", "(lz "))):
                 continue
             n += 1
             tsx = c["tree"]
